@@ -693,6 +693,20 @@ def api_oracle(w):
                 return ("MediaList(text) and MediaList(tokens of the same text) differ: a token pushed back with "
                         "tokenizer.push is re-read only when the stream is prodparser.tokenizer's own generator")
             return None
+        if k == "vars_str_vs_tokens":
+            from css_parser.css import CSSVariablesDeclaration
+            old = css_parser.ser.prefs.resolveVariables
+            css_parser.ser.prefs.resolveVariables = False
+            try:
+                a = CSSVariablesDeclaration(cssText=w["text"]).cssText
+                sh = css_parser.parseString("@variables { %s }" % w["text"])
+                b = sh.cssRules[0].variables.cssText if sh.cssRules.length else ""
+            finally:
+                css_parser.ser.prefs.resolveVariables = old
+            if a != b:
+                return ("CSSVariablesDeclaration(text) and the same text parsed inside @variables differ: the `;` kept with "
+                        "stopAndKeep is handed back with tokenizer.push, which only a stream of prodparser.tokenizer re-reads")
+            return None
         if k == "ctor_tokens_no_raise":
             cls = getattr(V, w["cls"])
             try:
@@ -722,6 +736,11 @@ def api_sweep(ctx, thorough):
         txt = g_ml(rng) if rng.random() < 0.5 else g_mq(rng) + rng.choice(["", " ,", " and", " and ,", ", tv", " )", ";"])
         ws.append({"expect": "mq_reparse", "text": txt})
         ws.append({"expect": "str_vs_tokens", "text": txt})
+    for _ in range(200 if thorough else 60):
+        parts = []
+        for _ in range(rng.randint(1, 3)):
+            parts.append(rng.choice(["a", "b", "c-d"]) + rng.choice([":", ": ", " : "]) + g_term(rng, 1))
+        ws.append({"expect": "vars_str_vs_tokens", "text": rng.choice(["; ", ";", " ; ", ";;", "; ;"]).join(parts) + rng.choice(["", ";", " ;"])})
     for cls, gid in (("Value", 4), ("ColorValue", 5), ("DimensionValue", 6), ("URIValue", 7), ("CSSFunction", 8), ("CSSCalc", 10),
                      ("CSSVariable", 11)):
         for _ in range(60):
